@@ -48,34 +48,51 @@ type unit struct {
 	funcs   []string // listed functions (order irrelevant)
 	externs map[string]string // functions of the package that are NOT translated: passed as a parameter (name -> Lean type)
 	owned   bool              // container PARAMETERS may be mutated: the caller hands them over and uses only what is returned
+	structs bool              // *Document and *EvalContext are records (Go.Doc, Go.Ctx) instead of opaque handles
 }
 
 var units = []unit{
-	{"Validate", ".", "Lib", nil, []string{"validate", "validateMap", "validateList", "validateString"}, nil, false},
-	{"Finalize", ".", "Lib", nil, []string{"finalizeOutput", "finalizeMap", "finalizeList", "finalizeString"}, nil, false},
+	{"Validate", ".", "Lib", nil, []string{"validate", "validateMap", "validateList", "validateString"}, nil, false, false},
+	{"Finalize", ".", "Lib", nil, []string{"finalizeOutput", "finalizeMap", "finalizeList", "finalizeString"}, nil, false, false},
 	{"Util", ".", "Lib", nil, []string{
 		"popMapValue", "toBool", "getMapBoolValue", "hasMapBoolValue", "popMapBoolValue",
 		"toString", "getMapStringValue", "popMapStringValue", "hasListMapBoolValue", "getListMapStringValue",
-		"toStringList", "deepClone"}, nil, false},
-	{"Match", ".", "Lib", []string{"Util"}, []string{"match", "matchMap", "matchList", "matchListSingle"}, nil, false},
-	{"Bklr", "cmd/bklr", "Bklr", nil, []string{"required", "requiredMap", "requiredList"}, nil, false},
-	{"Bkli", "cmd/bkli", "Bkli", nil, []string{"intersect", "intersectMap", "intersectMapMap", "intersectList", "intersectListList"}, nil, false},
+		"toStringList", "deepClone"}, nil, false, false},
+	{"Match", ".", "Lib", []string{"Util"}, []string{"match", "matchMap", "matchList", "matchListSingle"}, nil, false, false},
+	{"Bklr", "cmd/bklr", "Bklr", nil, []string{"required", "requiredMap", "requiredList"}, nil, false, false},
+	{"Bkli", "cmd/bkli", "Bkli", nil, []string{"intersect", "intersectMap", "intersectMapMap", "intersectList", "intersectListList"}, nil, false, false},
 	// higher-order helpers and their users (function literals that do not assign captured variables)
 	{"Filter", ".", "Lib", []string{"Util"}, []string{"filterMap", "filterList", "popListMapBoolValue", "popListMapStringValue",
-		"popListString", "popListMapValue"}, nil, false},
-	{"Output", ".", "Lib", []string{"Util", "Filter"}, []string{"filterOutput", "filterOutputMap", "filterOutputList"}, nil, false},
+		"popListString", "popListMapValue"}, nil, false, false},
+	{"Output", ".", "Lib", []string{"Util", "Filter"}, []string{"filterOutput", "filterOutputMap", "filterOutputList"}, nil, false, false},
 	// the leaf functions of the $encode transforms (tolist / values / join's string conversion); fmt's %v is Bkl.fmtV
-	{"Encode", ".", "Lib", nil, []string{"process2ToListList", "process2ToListMap", "process2ToListValue", "process2ValuesMap", "toStringListPermissive"}, nil, false},
+	{"Encode", ".", "Lib", nil, []string{"process2ToListList", "process2ToListMap", "process2ToListValue", "process2ValuesMap", "toStringListPermissive"}, nil, false, false},
 	// the $encode dispatcher: arity checks, every transform, stacks; the third-party codecs behind GetFormat are parameters
 	{"Encode2", ".", "Lib", []string{"Encode"}, []string{"process2EncodeAny", "process2EncodeString"},
-		map[string]string{"GetFormat": "String → Go.Opaque × Option Err", ".MarshalStream": "Go.Opaque → List Val → String × Option Err"}, false},
+		map[string]string{"GetFormat": "String → Go.Opaque × Option Err", ".MarshalStream": "Go.Opaque → List Val → String × Option Err"}, false, true},
+	// document-level $repeat (repeat.go) and the evaluation context (evalcontext.go): *Document / *EvalContext are records here
+	// (value semantics: repeat.go works on the private copy Document.Process makes); Document.Clone stays outside as a parameter
+	{"Repeat", ".", "Lib", []string{"Util", "Filter"}, []string{"repeatDoc", "repeatDocMap", "repeatDocList", "repeatDocGen", "repeatDocGenFromInt",
+		"repeatDocGenFromMap", "EvalContext.Clone", "EvalContext.GetVar"},
+		map[string]string{"Document.Clone": "Go.Doc → String → Go.Doc × Option Err"}, true, true},
+	// references (get.go): the YAML reading of a reference string is a parameter (parseRef)
+	{"Get", ".", "Lib", []string{"Util", "Match", "Repeat"}, []string{"getWithVar", "get", "getRef", "getPathFromList", "getPathFromString", "getPath",
+		"getCross", "getCrossDoc", "matchDoc"},
+		map[string]string{"yaml.Unmarshal": "String → Val × Option Err"}, false, true},
+	// phase 2 of evaluation (process2.go): nested $repeat, $encode, $decode, $value, $env, interpolation
+	{"Process2", ".", "Lib", []string{"Util", "Filter", "Validate", "Repeat", "Get", "Encode", "Encode2"}, []string{"process2", "process2Map", "process2MapValue",
+		"process2Encode", "process2Decode", "process2DecodeString", "process2DecodeStringMap", "process2List", "process2String", "process2StringInterp",
+		"process2RepeatObjMap", "process2RepeatObjList"},
+		map[string]string{"GetFormat": "String → Go.Opaque × Option Err", ".MarshalStream": "Go.Opaque → List Val → String × Option Err",
+			".UnmarshalStream": "Go.Opaque → String → List Val × Option Err", "normalize": "Val → Val × Option Err",
+			"yaml.Unmarshal": "String → Val × Option Err"}, false, true},
 	// bkld: `reproduces` runs bkl's own merge through the public API; it is a parameter here and the model's merge in the theorem
 	{"Bkld", "cmd/bkld", "Bkld", nil, []string{"diff", "replaceable", "diffMap", "diffMapMap", "diffList", "diffListList", "replaceList"},
-		map[string]string{"reproduces": "List Val → List Val → List Val → Bool"}, false},
+		map[string]string{"reproduces": "List Val → List Val → List Val → Bool"}, false, false},
 	// merge.go: the functions return the merged value; they also update `dst` in place, which value semantics renders as
 	// "the caller uses only what is returned" (that callers do is the separation monitor's subject, not the translator's)
 	{"Merge", ".", "Lib", []string{"Util", "Filter", "Match"}, []string{"merge", "mergeMap", "mergeMapMap", "mergeList", "mergeListList",
-		"mergeListDelete", "mergeListMatch"}, nil, true},
+		"mergeListDelete", "mergeListMatch"}, nil, true, false},
 }
 
 type tr struct {
@@ -100,6 +117,7 @@ type tr struct {
 	owned   bool              // container parameters may be mutated (unit flag)
 	ho      map[string]bool   // listed functions with a function-valued parameter: translated in state-passing style
 	inHO    bool              // translating such a function: `st__` is the state of the function values it calls
+	structs bool              // unit flag
 }
 
 type refuse struct{ msg string }
@@ -155,6 +173,10 @@ const (
 	kOpaque // pointers to structs (and slices of them): handed on, never looked into
 	kBytes  // []byte, only as the text it was converted from / is converted to
 	kHash   // hash.Hash: the text written to it so far
+	kDoc     // *Document as a record (units with `structs`)
+	kCtx     // *EvalContext as a record
+	kDocList // []*Document
+	kCtxList // []*EvalContext
 	kBad
 )
 
@@ -195,6 +217,10 @@ func (t *tr) kindOf(ty types.Type) kind {
 			return kStrList
 		case kOpaque:
 			return kOpaque
+		case kDoc:
+			return kDocList
+		case kCtx:
+			return kCtxList
 		}
 	case *types.Basic:
 		switch {
@@ -214,6 +240,14 @@ func (t *tr) kindOf(ty types.Type) kind {
 			return kRunes
 		}
 		if _, isStruct := x.Elem().Underlying().(*types.Struct); isStruct {
+			if n, ok := x.Elem().(*types.Named); ok && t.structs {
+				switch n.Obj().Name() {
+				case "Document":
+					return kDoc
+				case "EvalContext":
+					return kCtx
+				}
+			}
 			return kOpaque
 		}
 	case *types.Signature:
@@ -298,6 +332,14 @@ func leanType(k kind) string {
 		return "Go.Opaque"
 	case kBytes, kHash:
 		return "String"
+	case kDoc:
+		return "Go.Doc"
+	case kCtx:
+		return "Go.Ctx"
+	case kDocList:
+		return "(List Go.Doc)"
+	case kCtxList:
+		return "(List Go.Ctx)"
 	}
 	return "?"
 }
@@ -320,6 +362,14 @@ func zero(k kind) string {
 		return "(none : Option Err)"
 	case kStrList:
 		return "([] : List String)"
+	case kDocList:
+		return "([] : List Go.Doc)"
+	case kCtxList:
+		return "([] : List Go.Ctx)"
+	case kDoc:
+		return "Go.Doc.nil"
+	case kCtx:
+		return "(default : Go.Ctx)"
 	}
 	return "?"
 }
@@ -538,6 +588,16 @@ func (t *tr) ex(e ast.Expr, want kind, k func(string) string) string {
 		}
 		t.fail(e, "identifier %s outside the fragment", x.Name)
 	case *ast.UnaryExpr:
+		if x.Op == token.AND {
+			if cl, ok := x.X.(*ast.CompositeLit); ok && t.kindE(e) == kCtx && len(cl.Elts) == 1 {
+				if kv, ok := cl.Elts[0].(*ast.KeyValueExpr); ok {
+					if kid, ok := kv.Key.(*ast.Ident); ok && kid.Name == "Vars" {
+						return t.ex(kv.Value, kMap, func(v string) string { return done("({ vars := "+v+" } : Go.Ctx)", kCtx) })
+					}
+				}
+			}
+			t.fail(e, "address-of outside the fragment")
+		}
 		if x.Op == token.NOT {
 			return t.ex(x.X, kBool, func(a string) string { return done("(!"+a+")", kBool) })
 		}
@@ -570,6 +630,18 @@ func (t *tr) ex(e ast.Expr, want kind, k func(string) string) string {
 			}
 			if isNil(x.Y) {
 				ky = kx
+			}
+			if (kx == kDoc || ky == kDoc) && (isNil(x.X) || isNil(x.Y)) {
+				other := x.X
+				if isNil(x.X) {
+					other = x.Y
+				}
+				return t.ex(other, kDoc, func(a string) string {
+					if x.Op == token.EQL {
+						return done("("+a+".isNil)", kBool)
+					}
+					return done("(!"+a+".isNil)", kBool)
+				})
 			}
 			cmp := kx
 			if kx != ky {
@@ -621,6 +693,24 @@ func (t *tr) ex(e ast.Expr, want kind, k func(string) string) string {
 				return t.ex(x.Index, kStr, func(i string) string { return done("(Go.mapIndex "+m+" "+i+")", kAny) })
 			})
 		}
+		if t.kindE(x.X) == kList {
+			// Go panics outside the slice; the functions of the fragment guard the access with len (Go.listAt is total)
+			return t.ex(x.X, kList, func(l string) string {
+				return t.ex(x.Index, kInt, func(i string) string { return done("(Go.listAt "+l+" "+i+")", kAny) })
+			})
+		}
+		if kd := t.kindE(x.X); kd == kDocList || kd == kCtxList {
+			// guarded by the loop that produces the index; total with a default
+			return t.ex(x.X, kd, func(l string) string {
+				return t.ex(x.Index, kInt, func(i string) string {
+					el := kDoc
+					if kd == kCtxList {
+						el = kCtx
+					}
+					return done("("+l+".getD "+i+".toNat default)", el)
+				})
+			})
+		}
 		if t.kindE(x.X) == kStrList {
 			// Go panics outside the slice; the functions of the fragment guard the access with len (Go.strAt is total)
 			return t.ex(x.X, kStrList, func(l string) string {
@@ -649,6 +739,18 @@ func (t *tr) ex(e ast.Expr, want kind, k func(string) string) string {
 					return done(term, kMap)
 				})
 			})
+		case kDocList, kCtxList:
+			el := kDoc
+			if t.kindE(e) == kCtxList {
+				el = kCtx
+			}
+			w := make([]kind, len(x.Elts))
+			for i := range w {
+				w[i] = el
+			}
+			return t.exs(x.Elts, w, func(ts []string) string {
+				return done("(["+strings.Join(ts, ", ")+"] : "+strings.Trim(leanType(t.kindE(e)), "()")+")", t.kindE(e))
+			})
 		case kList, kStrList:
 			el := kAny
 			if t.kindE(e) == kStrList {
@@ -669,8 +771,30 @@ func (t *tr) ex(e ast.Expr, want kind, k func(string) string) string {
 			}
 			return done(terms[0], kinds[0])
 		})
+	case *ast.SliceExpr:
+		if kd := t.kindE(x.X); (kd == kList || kd == kStrList) && x.High == nil && x.Max == nil && x.Low != nil {
+			return t.ex(x.X, kd, func(l string) string {
+				return t.ex(x.Low, kInt, func(i string) string { return done("("+l+".drop "+i+".toNat)", kd) })
+			})
+		}
+		t.fail(e, "slice expression outside the fragment (only l[n:])")
 	case *ast.FuncLit:
 		t.fail(e, "function literal outside the argument list of a listed higher-order function")
+	case *ast.SelectorExpr:
+		switch t.kindE(x.X) {
+		case kDoc:
+			switch x.Sel.Name {
+			case "Data":
+				return t.ex(x.X, kDoc, func(d string) string { return done(d+".data", kAny) })
+			case "ID":
+				return t.ex(x.X, kDoc, func(d string) string { return done(d+".id", kStr) })
+			}
+		case kCtx:
+			if x.Sel.Name == "Vars" {
+				return t.ex(x.X, kCtx, func(d string) string { return done(d+".vars", kMap) })
+			}
+		}
+		t.fail(e, "field %s outside the fragment", x.Sel.Name)
 	}
 	t.fail(e, "expression %T is outside the fragment", e)
 	return ""
@@ -685,7 +809,18 @@ func (t *tr) funcLit(x *ast.FuncLit) (lambda string, state string, stateType str
 	if sig == nil || t.kindOf(sig) != kFunc {
 		t.fail(x, "function literal with a signature outside the fragment")
 	}
-	outer := t.loopState(x.Body)
+	own := map[types.Object]bool{}
+	for _, f := range x.Type.Params.List {
+		for _, id := range f.Names {
+			own[t.objOf(id)] = true
+		}
+	}
+	outer := []types.Object{}
+	for _, o := range t.loopState(x.Body) {
+		if !own[o] {
+			outer = append(outer, o)
+		}
+	}
 	sn, st := []string{}, []string{}
 	for _, o := range outer {
 		kd := t.kindOf(o.Type())
@@ -793,9 +928,12 @@ func tuple(ts []string) string {
 
 // Lean name of an extern parameter
 func externName(key string) string {
-	n := strings.TrimPrefix(key, ".")
+	n := strings.ReplaceAll(strings.TrimPrefix(key, "."), ".", "")
 	return strings.ToLower(n[:1]) + n[1:]
 }
+
+// Lean name of a listed function or method
+func leanFuncName(key string) string { return strings.ReplaceAll(key, ".", "_") + "'" }
 
 // an extern is a pure function returning a value or a pair
 func (t *tr) externResult(term string, rk []kind, k func([]string, []kind) string) string {
@@ -913,6 +1051,61 @@ func (t *tr) call(c *ast.CallExpr, k func([]string, []kind) string) string {
 			}
 		}
 	}
+	// interpRE.ReplaceAllStringFunc(s, func(m string) string {…}): the regexp `{.*?}` is the model's segment scanner
+	// (Go.replaceAllInterp); the literal is state-passing like every other one
+	if sel, ok := c.Fun.(*ast.SelectorExpr); ok && sel.Sel.Name == "ReplaceAllStringFunc" && len(c.Args) == 2 {
+		if rid, ok := sel.X.(*ast.Ident); ok && rid.Name == "interpRE" {
+			if lit, ok := c.Args[1].(*ast.FuncLit); ok {
+				return arg(0, kStr, func(a string) string {
+					lambda, state, _ := t.funcLit(lit)
+					r := t.fresh("r")
+					return t.bindG("(Go.replaceAllInterp "+a+" "+lambda+" "+state+")", "("+r+", "+state+")", func() string { return one(r, kStr) })
+				})
+			}
+		}
+	}
+	// listed methods and method externs keyed by the receiver's type: ec.Clone(), doc.Clone(s)
+	if sel, ok := c.Fun.(*ast.SelectorExpr); ok {
+		recvName := map[kind]string{kDoc: "Document", kCtx: "EvalContext"}[t.kindE(sel.X)]
+		if recvName != "" {
+			key := recvName + "." + sel.Sel.Name
+			sig := sigOf(t.typeOf(c.Fun))
+			if sig != nil {
+				pk, rk := []kind{}, []kind{}
+				for i := 0; i < sig.Params().Len(); i++ {
+					pk = append(pk, t.kindOf(sig.Params().At(i).Type()))
+				}
+				for i := 0; i < sig.Results().Len(); i++ {
+					rk = append(rk, t.kindOf(sig.Results().At(i).Type()))
+				}
+				if _, isExt := t.externs[key]; isExt {
+					return t.ex(sel.X, kBad, func(recv string) string {
+						return t.exs(c.Args, pk, func(args []string) string {
+							return t.externResult("("+externName(key)+" "+recv+" "+strings.Join(args, " ")+")", rk, k)
+						})
+					})
+				}
+				if t.listed[key] {
+					return t.ex(sel.X, kBad, func(recv string) string {
+						return t.exs(c.Args, pk, func(args []string) string {
+							callee := leanFuncName(key)
+							for _, ex := range t.needExt[key] {
+								callee += " " + externName(ex)
+							}
+							if t.fuel[key] {
+								callee += " fuel"
+							}
+							rs := make([]string, len(rk))
+							for i := range rs {
+								rs[i] = t.fresh("r")
+							}
+							return t.bindG("("+callee+" "+recv+" "+strings.Join(args, " ")+")", tuple(rs), func() string { return k(rs, rk) })
+						})
+					})
+				}
+			}
+		}
+	}
 	// method externs (f.MarshalStream(...)) and function externs with several results
 	if sel, ok := c.Fun.(*ast.SelectorExpr); ok {
 		if lt, isExt := t.externs["."+sel.Sel.Name]; isExt && lt != "" && t.kindE(sel.X) == kOpaque {
@@ -971,7 +1164,7 @@ func (t *tr) call(c *ast.CallExpr, k func([]string, []kind) string) string {
 		return arg(0, kd, func(a string) string { return one(a, kd) })
 	case "len":
 		switch t.kindE(c.Args[0]) {
-		case kMap, kList, kStrList:
+		case kMap, kList, kStrList, kDocList, kCtxList:
 			return arg(0, kBad, func(a string) string { return one("(Int.ofNat "+a+".length)", kInt) })
 		case kStr:
 			return arg(0, kStr, func(a string) string { return one("(Int.ofNat "+a+".utf8ByteSize)", kInt) })
@@ -981,6 +1174,10 @@ func (t *tr) call(c *ast.CallExpr, k func([]string, []kind) string) string {
 		el := kAny
 		if kd == kStrList {
 			el = kStr
+		} else if kd == kDocList {
+			el = kDoc
+		} else if kd == kCtxList {
+			el = kCtx
 		} else if kd != kList {
 			t.fail(c, "append on this type is outside the fragment")
 		}
@@ -1022,6 +1219,18 @@ func (t *tr) call(c *ast.CallExpr, k func([]string, []kind) string) string {
 	case "strings.HasPrefix":
 		return arg(0, kStr, func(a string) string {
 			return arg(1, kStr, func(b string) string { return one("(Go.hasPrefix "+a+" "+b+")", kBool) })
+		})
+	case "strings.HasSuffix":
+		return arg(0, kStr, func(a string) string {
+			return arg(1, kStr, func(b string) string { return one("(Go.hasSuffix "+a+" "+b+")", kBool) })
+		})
+	case "strings.TrimPrefix":
+		return arg(0, kStr, func(a string) string {
+			return arg(1, kStr, func(b string) string { return one("(Go.trimPrefix "+a+" "+b+")", kStr) })
+		})
+	case "strings.TrimSuffix":
+		return arg(0, kStr, func(a string) string {
+			return arg(1, kStr, func(b string) string { return one("(Go.trimSuffix "+a+" "+b+")", kStr) })
 		})
 	case "reflect.DeepEqual":
 		return arg(0, kAny, func(a string) string { return arg(1, kAny, func(b string) string { return one("("+a+" == "+b+")", kBool) }) })
@@ -1287,7 +1496,17 @@ func (t *tr) stmts(ss []ast.Stmt, c ctx, k func() string) string {
 		}
 		t.fail(s, "expression statement outside the fragment")
 	case *ast.IncDecStmt:
+		if id, ok := s.X.(*ast.Ident); ok && t.kindE(s.X) == kInt {
+			names, _ := t.assignTargets([]ast.Expr{id}, false)
+			op := "+"
+			if s.Tok == token.DEC {
+				op = "-"
+			}
+			return "(let " + names[0] + " : Int := " + names[0] + " " + op + " 1\n" + rest() + ")"
+		}
 		t.fail(s, "++/-- outside the fragment")
+	case *ast.ForStmt:
+		return t.countingLoop(s, c, rest)
 	case *ast.AssignStmt:
 		return t.assign(s, c, rest)
 	case *ast.IfStmt:
@@ -1321,9 +1540,93 @@ func (t *tr) stmts(ss []ast.Stmt, c ctx, k func() string) string {
 	return ""
 }
 
+// for i := 0; i < n; i++ { body } where the body assigns neither i nor anything n mentions: a range over 0..n-1
+func (t *tr) countingLoop(s *ast.ForStmt, c ctx, rest func() string) string {
+	init, ok1 := s.Init.(*ast.AssignStmt)
+	cond, ok2 := s.Cond.(*ast.BinaryExpr)
+	post, ok3 := s.Post.(*ast.IncDecStmt)
+	if !ok1 || !ok2 || !ok3 || init.Tok != token.DEFINE || len(init.Lhs) != 1 || len(init.Rhs) != 1 || cond.Op != token.LSS || post.Tok != token.INC {
+		t.fail(s, "for loop that is not `for i := 0; i < n; i++`")
+	}
+	iv, okv := init.Lhs[0].(*ast.Ident)
+	zero, okz := init.Rhs[0].(*ast.BasicLit)
+	cx, okc := cond.X.(*ast.Ident)
+	px, okp := post.X.(*ast.Ident)
+	if !okv || !okz || zero.Value != "0" || !okc || !okp || t.objOf(cx) != t.objOf(iv) || t.objOf(px) != t.objOf(iv) {
+		t.fail(s, "for loop that is not `for i := 0; i < n; i++`")
+	}
+	io := t.objOf(iv)
+	// the body must not assign the counter or a variable of the bound
+	bound := map[types.Object]bool{io: true}
+	ast.Inspect(cond.Y, func(n ast.Node) bool {
+		if id, ok := n.(*ast.Ident); ok {
+			if o := t.objOf(id); o != nil {
+				bound[o] = true
+			}
+		}
+		return true
+	})
+	for _, o := range t.loopState(s.Body) {
+		if bound[o] {
+			t.fail(s, "the loop body assigns its counter or its bound")
+		}
+	}
+	state := t.loopState(s.Body)
+	sn := make([]string, len(state))
+	for i, o := range state {
+		sn[i] = t.nameOf(o)
+	}
+	st := "()"
+	if len(sn) > 0 {
+		st = tuple(sn)
+	}
+	return t.ex(cond.Y, kInt, func(n string) string {
+		inner := ctx{
+			ret:  func(vals []string) string { return "(.ok (Go.Loop.ret " + tuple(vals) + "))" },
+			next: func() string { return "(.ok (Go.Loop.next " + st + "))" },
+			brk:  func() string { return "(.ok (Go.Loop.brk " + st + "))" },
+		}
+		body := t.stmts(s.Body.List, inner, inner.next)
+		r := t.fresh("r")
+		rs := make([]string, len(t.results))
+		for i := range rs {
+			rs[i] = r + "_" + fmt.Sprint(i)
+		}
+		return "(match Go.forRange (ρ := " + t.resultType() + ") (Go.intRange " + n + ") " + st + " (fun " + t.nameOf(io) + " " + st + " =>\n" + body + ") with\n" +
+			" | .error e__ => .error e__\n" +
+			" | .ok (.inr " + tuple(rs) + ") => " + c.ret(rs) + "\n" +
+			" | .ok (.inl " + st + ") =>\n" + rest() + ")"
+	})
+}
+
 func (t *tr) assign(s *ast.AssignStmt, c ctx, rest func() string) string {
 	if s.Tok != token.DEFINE && s.Tok != token.ASSIGN {
 		t.fail(s, "assignment operator %s outside the fragment", s.Tok)
+	}
+	// doc.Data = v ; ec.Vars[k] = v   (records: the variable is re-bound to the updated record)
+	if len(s.Lhs) == 1 && len(s.Rhs) == 1 {
+		if sel, ok := s.Lhs[0].(*ast.SelectorExpr); ok {
+			if id, ok := sel.X.(*ast.Ident); ok && t.kindE(sel.X) == kDoc && sel.Sel.Name == "Data" {
+				names, _ := t.assignTargets([]ast.Expr{id}, false)
+				t.checkRecordMutation(id, s)
+				return t.ex(s.Rhs[0], kAny, func(v string) string {
+					return "(let " + names[0] + " : Go.Doc := { " + names[0] + " with data := " + v + " }\n" + rest() + ")"
+				})
+			}
+		}
+		if ix, ok := s.Lhs[0].(*ast.IndexExpr); ok {
+			if sel, ok := ix.X.(*ast.SelectorExpr); ok {
+				if id, ok := sel.X.(*ast.Ident); ok && t.kindE(sel.X) == kCtx && sel.Sel.Name == "Vars" {
+					names, _ := t.assignTargets([]ast.Expr{id}, false)
+					t.checkRecordMutation(id, s)
+					return t.ex(ix.Index, kStr, func(key string) string {
+						return t.ex(s.Rhs[0], kAny, func(v string) string {
+							return "(let " + names[0] + " : Go.Ctx := { " + names[0] + " with vars := fset " + names[0] + ".vars " + key + " " + v + " }\n" + rest() + ")"
+						})
+					})
+				}
+			}
+		}
 	}
 	// m[k] = v
 	if len(s.Lhs) == 1 {
@@ -1380,6 +1683,25 @@ func (t *tr) assign(s *ast.AssignStmt, c ctx, rest func() string) string {
 						return "(" + out + rest() + ")"
 					})
 				})
+			}
+		}
+	}
+	if len(s.Lhs) == 1 && len(s.Rhs) == 1 {
+		if call, ok := s.Rhs[0].(*ast.CallExpr); ok && callName(call) == "yaml.Unmarshal" && len(call.Args) == 2 {
+			if _, isExt := t.externs["yaml.Unmarshal"]; isExt {
+				conv, ok1 := call.Args[0].(*ast.CallExpr)
+				addr, ok2 := call.Args[1].(*ast.UnaryExpr)
+				if ok1 && ok2 && callName(conv) == "[]byte" && addr.Op == token.AND {
+					if tid, ok := addr.X.(*ast.Ident); ok && t.kindE(addr.X) == kAny {
+						enames, _ := t.assignTargets(s.Lhs, s.Tok == token.DEFINE)
+						tnames, _ := t.assignTargets([]ast.Expr{tid}, false)
+						return t.ex(conv.Args[0], kStr, func(a string) string {
+							x := t.fresh("x")
+							return "(let " + x + " := (" + externName("yaml.Unmarshal") + " " + a + ")\nlet " + tnames[0] + " : Val := " + x + ".1\nlet " +
+								enames[0] + " : (Option Err) := " + x + ".2\n" + rest() + ")"
+						})
+					}
+				}
 			}
 		}
 	}
@@ -1445,7 +1767,11 @@ func (t *tr) assign(s *ast.AssignStmt, c ctx, rest func() string) string {
 			}
 			return t.ex(r.X, kAny, func(a string) string {
 				p := t.fresh("p")
-				return "(let " + p + " := " + fn + " " + a + "\n" + bind([]string{p + ".1", p + ".2"}) + ")"
+				first := p + ".1"
+				if names[0] != "_" && kinds[0] != target {
+					first = t.conv(s, first, target, kinds[0])
+				}
+				return "(let " + p + " := " + fn + " " + a + "\n" + bind([]string{first, p + ".2"}) + ")"
 			})
 		}
 	}
@@ -1593,6 +1919,9 @@ func (t *tr) loopState(body *ast.BlockStmt) []types.Object {
 		if ix, ok := e.(*ast.IndexExpr); ok {
 			e = ix.X
 		}
+		if sel, ok := e.(*ast.SelectorExpr); ok {
+			e = sel.X // doc.Data = …, ec.Vars[k] = …: the record variable is what changes
+		}
 		id, ok := e.(*ast.Ident)
 		if !ok || id.Name == "_" {
 			return
@@ -1673,7 +2002,7 @@ func (t *tr) rangeLoopL(s *ast.RangeStmt, label string, c ctx, rest func() strin
 	case kMap:
 		pat = "(" + varName(s.Key) + ", " + varName(s.Value) + ")"
 		iter = "%s"
-	case kList, kStrList:
+	case kList, kStrList, kDocList, kCtxList:
 		if s.Key == nil || varName(s.Key) == "_" {
 			pat = varName(s.Value)
 			iter = "%s"
@@ -1763,9 +2092,48 @@ func fresh(e ast.Expr) bool {
 		return true
 	case *ast.CallExpr:
 		n := callName(x)
-		return n == "make" || n == "maps.Clone"
+		return n == "make" || n == "maps.Clone" || strings.HasSuffix(n, ".Clone")
 	}
 	return false
+}
+
+// a record (Go pointer to struct) may be updated when it is a parameter of an `owned` unit that was not re-assigned, or when
+// its textually preceding assignment is a fresh record (x.Clone(), &T{…}) or the result of a call (the callee's own value)
+func (t *tr) checkRecordMutation(id *ast.Ident, at ast.Stmt) {
+	o := t.objOf(id)
+	var last ast.Expr
+	seen := false
+	ast.Inspect(t.fn.Body, func(n ast.Node) bool {
+		if a, ok := n.(*ast.AssignStmt); ok && a.Pos() < at.Pos() {
+			for i, l := range a.Lhs {
+				if lid, ok := l.(*ast.Ident); ok && t.objOf(lid) == o {
+					seen = true
+					last = nil
+					if len(a.Rhs) == len(a.Lhs) {
+						last = a.Rhs[i]
+					} else if len(a.Rhs) == 1 {
+						last = a.Rhs[0]
+					}
+				}
+			}
+		}
+		return true
+	})
+	if !seen {
+		if v, ok := o.(*types.Var); ok && t.isParam(v) && t.owned {
+			return
+		}
+		t.fail(at, "update of the record %s, which the function does not own", id.Name)
+	}
+	switch x := last.(type) {
+	case *ast.CallExpr:
+		return // a value produced by a call (Clone included) belongs to this function
+	case *ast.UnaryExpr:
+		if x.Op == token.AND {
+			return
+		}
+	}
+	t.fail(at, "update of the record %s after it was assigned from another variable (it may be aliased)", id.Name)
 }
 
 func (t *tr) isParam(v *types.Var) bool {
@@ -1775,7 +2143,7 @@ func (t *tr) isParam(v *types.Var) bool {
 			return true
 		}
 	}
-	return false
+	return sig.Recv() == v
 }
 
 // a mutation of `id` at statement `at` is accepted when the textually preceding assignment to the variable is a
@@ -1924,12 +2292,24 @@ func (t *tr) function(name string) (text string, err error) {
 	}()
 	fd := t.decls[name]
 	t.fn, t.names, t.used, t.tmp, t.curFuel = fd, map[types.Object]string{}, map[string]int{}, 0, t.fuel[name]
-	if fd.Recv != nil || fd.Type.TypeParams != nil {
-		t.fail(fd, "methods and generic functions are outside the fragment")
+	if fd.Type.TypeParams != nil {
+		t.fail(fd, "generic functions are outside the fragment")
 	}
 	pk, rk := t.sigKinds(fd)
 	t.results = rk
 	params := ""
+	recvParam := ""
+	if fd.Recv != nil {
+		if len(fd.Recv.List) != 1 || len(fd.Recv.List[0].Names) != 1 {
+			t.fail(fd, "method without a named receiver")
+		}
+		ro := t.objOf(fd.Recv.List[0].Names[0])
+		rk0 := t.kindOf(ro.Type())
+		if rk0 != kDoc && rk0 != kCtx {
+			t.fail(fd, "method on a type outside the fragment")
+		}
+		recvParam = " (" + t.nameOf(ro) + " : " + leanType(rk0) + ")"
+	}
 	for _, ex := range t.needExt[name] {
 		params += " (" + externName(ex) + " : " + t.externs[ex] + ")"
 	}
@@ -1987,9 +2367,9 @@ func (t *tr) function(name string) (text string, err error) {
 	p := t.fset.Position(fd.Pos())
 	doc := fmt.Sprintf("/-- %s:%s -/\n", filepath.Base(p.Filename), name)
 	if t.fuel[name] {
-		return doc + "def " + name + "'" + extParams + " (fuel__ : Nat)" + params + " : G (" + rt + ") :=\n  match fuel__ with\n  | 0 => .error GErr.fuel\n  | fuel+1 =>\n" + indent(body), nil
+		return doc + "def " + leanFuncName(name) + extParams + " (fuel__ : Nat)" + recvParam + params + " : G (" + rt + ") :=\n  match fuel__ with\n  | 0 => .error GErr.fuel\n  | fuel+1 =>\n" + indent(body), nil
 	}
-	return doc + "def " + name + "'" + extParams + params + " : G (" + rt + ") :=\n" + indent(body), nil
+	return doc + "def " + leanFuncName(name) + extParams + recvParam + params + " : G (" + rt + ") :=\n" + indent(body), nil
 }
 
 func (t *tr) resultType() string {
@@ -2089,6 +2469,7 @@ func main() {
 		byName[u.name] = u
 	}
 	fuelOf := map[string]map[string]bool{} // unit -> fuel map, for importers
+	extOf := map[string]map[string][]string{} // unit -> function -> externs it needs, for importers
 	for _, u := range units {
 		var out strings.Builder
 		out.WriteString("/- GENERATED by /verif/harness/cmd/gotrans from /repo's current source (" + u.dir + "). Do not edit. -/\nimport Bkl.GoLib\n")
@@ -2102,11 +2483,22 @@ func main() {
 			problems = append(problems, fmt.Sprintf("%s: cannot load package: %v", u.dir, err))
 			continue
 		}
-		t := &tr{fset: fset, info: info, pkg: pkg, decls: map[string]*ast.FuncDecl{}, listed: map[string]bool{}, own: map[string]bool{}, fuel: map[string]bool{}}
+		t := &tr{fset: fset, info: info, pkg: pkg, decls: map[string]*ast.FuncDecl{}, listed: map[string]bool{}, own: map[string]bool{}, fuel: map[string]bool{},
+			structs: u.structs}
 		for _, f := range files {
 			for _, d := range f.Decls {
-				if fd, ok := d.(*ast.FuncDecl); ok && fd.Recv == nil {
-					t.decls[fd.Name.Name] = fd
+				if fd, ok := d.(*ast.FuncDecl); ok {
+					if fd.Recv == nil {
+						t.decls[fd.Name.Name] = fd
+					} else if len(fd.Recv.List) == 1 {
+						rt := fd.Recv.List[0].Type
+						if st, ok := rt.(*ast.StarExpr); ok {
+							rt = st.X
+						}
+						if id, ok := rt.(*ast.Ident); ok {
+							t.decls[id.Name+"."+fd.Name.Name] = fd
+						}
+					}
 				}
 			}
 		}
@@ -2139,6 +2531,15 @@ func main() {
 						if _, isFn := t.info.Uses[id].(*types.Func); isFn {
 							seen[id.Name] = true
 							calls[n] = append(calls[n], id.Name)
+						}
+					}
+					if sel, ok := c.Fun.(*ast.SelectorExpr); ok {
+						if rn := map[kind]string{kDoc: "Document", kCtx: "EvalContext"}[t.kindE(sel.X)]; rn != "" {
+							key := rn + "." + sel.Sel.Name
+							if t.listed[key] && !seen[key] {
+								seen[key] = true
+								calls[n] = append(calls[n], key)
+							}
 						}
 					}
 				}
@@ -2193,6 +2594,14 @@ func main() {
 		t.externs = u.externs
 		t.needExt = map[string][]string{}
 		direct := map[string]map[string]bool{}
+		for _, im := range u.imports {
+			for n, es := range extOf[im] {
+				direct[n] = map[string]bool{}
+				for _, e := range es {
+					direct[n][e] = true
+				}
+			}
+		}
 		for n := range t.own {
 			direct[n] = map[string]bool{}
 			ast.Inspect(t.decls[n].Body, func(x ast.Node) bool {
@@ -2202,9 +2611,19 @@ func main() {
 							direct[n][id.Name] = true
 						}
 					}
+					if cn := callName(c); strings.Contains(cn, ".") && !strings.HasPrefix(cn, ".") {
+						if _, isExt := u.externs[cn]; isExt {
+							direct[n][cn] = true
+						}
+					}
 					if sel, ok := c.Fun.(*ast.SelectorExpr); ok {
 						if _, isExt := u.externs["."+sel.Sel.Name]; isExt {
 							direct[n]["."+sel.Sel.Name] = true
+						}
+						if rn := map[kind]string{kDoc: "Document", kCtx: "EvalContext"}[t.kindE(sel.X)]; rn != "" {
+							if _, isExt := u.externs[rn+"."+sel.Sel.Name]; isExt {
+								direct[n][rn+"."+sel.Sel.Name] = true
+							}
 						}
 					}
 				}
@@ -2227,8 +2646,15 @@ func main() {
 		for n, es := range direct {
 			for e := range es {
 				t.needExt[n] = append(t.needExt[n], e)
+				if _, ok := u.externs[e]; !ok && t.own[n] {
+					problems = append(problems, fmt.Sprintf("%s: %s reaches the extern %s, which unit %s does not declare", u.dir, n, e, u.name))
+				}
 			}
 			sort.Strings(t.needExt[n])
+		}
+		extOf[u.name] = map[string][]string{}
+		for n, es := range t.needExt {
+			extOf[u.name][n] = es
 		}
 		// the package's errors.New variable (at most one): its class is Err.other
 		for _, f := range files {
